@@ -15,6 +15,7 @@ import sqlite3
 import tempfile
 
 from .. import core, tlcrun, par, impl
+from . import readerapi
 from ..text import s
 s_ = s
 
@@ -315,6 +316,9 @@ def check(run):
             run.violation(sig, {'kind': 'modifier_case', 'case': case, 'k': k})
     case_variant_names(run)
     direct_mode_last_token(run)
+    # the header line is never data at the record-level API either: every history of get_record / get_all_records(n) / get_header /
+    # get_warnings / WITH modifier (spec/ReaderApi.tla: NoLossNoDup, HeaderStable), replayed into CSVRecordIterator
+    readerapi.check(run, quick)
     run.exhaustive = True
 
 
@@ -323,6 +327,12 @@ def replay(path):
         rep = json.load(f)
     c = rep['case']
     run = core.Run('C09', 'quick', 0)
+    if c['kind'] == 'reader_api':
+        for _, sigs in readerapi._replay_chunk([(0, c['case'], c['variant'])]):
+            run.traces += 1
+            for sig in sigs:
+                run.violation(sig, c)
+        return run.finish()
     fn = _bind_chunk if c['kind'] == 'name_case' else _modifier_chunk
     for k, sigs, nruns in fn([(c.get('k', 0), c['case'])]):
         run.traces += nruns
